@@ -25,6 +25,11 @@ def run(ctx):
     n = effi.check_thin_wrappers(ctx, F)
     ctx.floor("E-FFI.thin", "exported function bodies and their closures", n, 250)
     ctx.floor("E-FFI.fresh", "exported functions taking and returning a handle", n, 50)
+    ctx.explain("E-FFI.siblings: oxidd_bdd_X, oxidd_bcdd_X and oxidd_zbdd_X are the same program up to the kind's names "
+                "(normalised type-checked HIR); a member that deviates from its siblings does something the Rust API call "
+                "they all wrap does not. Reviewed deviations are listed with their reason.")
+    ns = effi.check_siblings(ctx, F)
+    ctx.floor("E-FFI.siblings", "groups of sibling C functions compared", ns, 65)
     st = elin.run(ctx, F, crates=("oxidd_ffi_c",), skip_guard_table=True)
     ctx.floor("E-LIN", "FFI bodies analysed", st["bodies"], 300)
     eunits.run(ctx, F, crates=("oxidd_ffi_c",))
